@@ -10,6 +10,7 @@ import SIM.Driver.Retain
 import SIM.Driver.Json
 import SIM.Driver.Build
 import SIM.Driver.Std
+import SIM.Driver.Derive
 open SIM SIM.Driver
 
 def dispatch (stream : String) (toks : List String) : Verdict :=
@@ -25,6 +26,7 @@ def dispatch (stream : String) (toks : List String) : Verdict :=
   | "std" => runP stdCase toks
   | "meta" => runP metaCase toks
   | "tinfo" => runP tinfoCase toks
+  | "derive" => runP deriveCase toks
   | _ => .unmodelled ("unknown stream " ++ stream)
 
 partial def loop (h : IO.FS.Stream) (out : IO.FS.Stream) : IO Unit := do
